@@ -171,8 +171,14 @@ struct Dumper
       }
     S += ")";
     if (auto *M = dyn_cast<CXXMethodDecl> (F))
-      if (M->isConst ())
-	S += "const";
+      {
+	if (M->isConst ())
+	  S += "const";
+	// methods of unnamed classes (`static struct : base { ... } obj;`) would all share one id: tell them apart by location
+	if (auto *R = M->getParent ())
+	  if (!R->getIdentifier () && !R->isLambda () && !R->getTypedefNameForAnonDecl ())
+	    S += "@" + locStr (F->getLocation ());
+      }
     return S;
   }
 
